@@ -39,7 +39,24 @@ impl Default for SlotCfg {
     }
 }
 
+/// the configuration the slot crates were last set up with (recorded in replay files)
+pub static CURRENT_CFG: std::sync::Mutex<Option<SlotCfg>> = std::sync::Mutex::new(None);
+
+impl SlotCfg {
+    pub fn to_json(&self) -> serde_json::Value {
+        serde_json::json!({"features": self.features, "default_features": self.default_features, "ext": self.slot_features.iter().any(|f| f == "ext")})
+    }
+    pub fn from_json(v: &serde_json::Value) -> Option<SlotCfg> {
+        let feats: Vec<String> = v["features"].as_array()?.iter().filter_map(|x| x.as_str().map(|s| s.to_string())).collect();
+        let mut cfg = if v["ext"] == true { SlotCfg::ext() } else { SlotCfg::default() };
+        cfg.features = feats;
+        cfg.default_features = v["default_features"].as_bool().unwrap_or(true);
+        Some(cfg)
+    }
+}
+
 pub fn ensure(ctx: &Ctx, slot: &SlotCfg) {
+    *CURRENT_CFG.lock().unwrap() = Some(slot.clone());
     let s = ctx.subjects();
     let repo = ctx.repo.display();
     let verif = ctx.verif.display();
@@ -156,6 +173,20 @@ fn serde_case_rs(ctx: &Ctx) -> String {
 }
 
 pub fn ensure_slots(ctx: &Ctx, slot: &SlotCfg) {
+    let s = ctx.subjects();
+    let repo = ctx.repo.display();
+    let before = std::fs::read_to_string(s.join("slot00/Cargo.toml")).unwrap_or_default();
+    ensure_slots_inner(ctx, slot);
+    // another set of dependencies: start again from the repository's lock file, so that every
+    // crate the repository pins keeps its pinned version (cargo prunes what a configuration does
+    // not use and would otherwise re-add it later at the newest cached version)
+    if before != std::fs::read_to_string(s.join("slot00/Cargo.toml")).unwrap_or_default() {
+        std::fs::copy(ctx.repo.join("Cargo.lock"), s.join("Cargo.lock")).ok();
+    }
+    let _ = repo;
+}
+
+fn ensure_slots_inner(ctx: &Ctx, slot: &SlotCfg) {
     let s = ctx.subjects();
     let repo = ctx.repo.display();
     for i in 0..NSLOTS {
